@@ -55,7 +55,7 @@ Line(E, ln) ==
          [] ln.k = "source" -> IF ln.name \in Names(E.sources) THEN [E EXCEPT !.ok = FALSE]
                                ELSE [E EXCEPT !.sources = Append(@, [name |-> ln.name])]
          [] ln.k = "node" -> IF ln.unit \notin {"", "m"} \cup Names(E.units) THEN [E EXCEPT !.ok = FALSE]
-                             ELSE IF ln.name \in Names(E.nodes)
+                             ELSE IF ln.name \in Names(E.nodes)    \* re-definition = assignment (texts never re-state another unit)
                                   THEN [E EXCEPT !.nodes[Idx(E.nodes, ln.name)].val = ln.val]
                                   ELSE [E EXCEPT !.nodes = Append(@, [name |-> ln.name, val |-> ln.val, unit |-> ln.unit])]
          [] ln.k = "inj" -> IF Len(E.nodes) # 1 \/ ln.name \in Names(E.nodes) THEN [E EXCEPT !.ok = FALSE]   \* {?*} must select one
